@@ -16,7 +16,7 @@ CHECKS = {
  "C03": ("stateless deviation-bounded exhaustive exploration of real Apps, per-frame structural oracle",
          "After every client frame the client's structure and entity map must equal the per-client structural snapshot at its update tick, for every structural history and reliable-channel delay pattern within the bound.", "§5 C03"),
  "C04": ("stateless deviation-bounded exhaustive exploration of real Apps with an event vocabulary; delivery-time oracle",
-         "Every history of structural operations and event emissions and every relative delay between the update channel and the event channels within the bound is executed; at each delivery the client's update tick and the resolved references are checked.", "§5 C04"),
+         "Every history of structural operations and event emissions and every relative delay between the update channel and the event channels within the bound is executed; at each delivery the client's update tick and the resolved references are checked; the timer-driven cell is re-explored under both resolutions of every pair of library systems whose order the declared constraints leave open.", "§5 C04"),
  "C05": ("stateless deviation-bounded exhaustive exploration of real Apps (1-3 clients) against a recipient-list reference model",
          "All emission / connect / disconnect sequences and per-channel hold, reverse and drop schedules within the bound are executed; deliveries are compared with the intended-recipient sets fixed at emission, per-type order, sender identity and a wire scan for re-sends.", "§5 C05"),
  "C07": ("stateless deviation-bounded exhaustive exploration of real Apps under the three authorization methods; per-frame wire oracle",
@@ -24,17 +24,17 @@ CHECKS = {
  "C08": ("stateless deviation-bounded exhaustive exploration of real Apps under both visibility policies; wire scan, visibility-query oracle and twin-execution differential",
          "All sequences of visibility calls, lifecycle operations and ticks within the bound are executed; every message is scanned for payloads of entities hidden from its recipient, is_visible is compared with the last call, and a second client is compared with a twin execution.", "§5 C08"),
  "C09": ("stateless deviation-bounded exhaustive exploration of real Apps with disconnect / server-stop injection at every round (crash-point enumeration)",
-         "A client disconnect or server stop is injected at every round of every history within the bound, with traffic held in flight or buffered by earlier deviations; after reconnect the per-frame confirmed-tick oracle, the session-aware recipient oracle and convergence must hold and no panic may occur.", "§5 C09"),
+         "A client disconnect or server stop is injected at every round of every history within the bound, with traffic held in flight or buffered by earlier deviations; after reconnect the per-frame confirmed-tick oracle, the session-aware recipient oracle and convergence must hold and no panic may occur; the restart cell also under both resolutions of every open system-order pair.", "§5 C09"),
  "C13": ("exhaustive enumeration of operation sequences on one real App (all configurations, status-change points, emission points, event-rotation regimes), plus all emit/close histories of two real Apps with the example backend over loopback TCP",
          "Every sequence of <= r operations (server start/stop, client status changes, emissions in every mode) is executed on a real App in the full and the dedicated build; per event the number of local observations and wire sends must match the configuration, never twice. With the real transport: every history of <= 3/4 frames over emit / close / both on either side, exactly one path per event.", "§5 C13"),
  "C16": ("stateless deviation-bounded exhaustive exploration of real Apps with pre-spawn mapping operations; per-frame adoption oracle",
          "All timings of the mapping relative to spawn, marker and visibility, with extra traffic, client-side despawn and a second client, under reliable-channel delays within the bound; one client entity per server entity and adoption are checked after every client frame.", "§5 C16"),
  "C06": ("exhaustive enumeration of client-to-server byte strings (all <= 2/3-byte strings + varint-boundary grammar + structure-aware mutations of genuine messages) against a real server App, in rlimit-ed worker subprocesses with an allocation recorder",
-         "Every input of the enumerated sets is injected on every client channel from unauthorized, authorized and disconnecting senders; the server must neither panic nor abort nor allocate out of proportion, a genuine event / acknowledgement of a well-behaved client queued behind it in the same frame must still take effect, and that client must keep converging.", "§5 C06"),
+         "Every input of the enumerated sets is injected on every client channel from unauthorized, authorized and disconnecting senders; the server must neither panic nor abort nor allocate out of proportion, a genuine event / acknowledgement of a well-behaved client queued behind it in the same frame must still take effect, and that client must keep converging; plus total silence of all clients across a full wrap of the 16-bit mutate-message index.", "§5 C06"),
  "C10": ("exhaustive enumeration of payload-size tuples and relationship-graph histories on real Apps; every ordered subset of a tick's mutate messages delivered (split-delivery stage)",
          "For every size tuple around the packing boundaries and every relationship history within the bound, all subsets / orders of one tick's mutate messages are delivered in separate re-executions; per-entity and per-group all-or-nothing and the size clauses are checked.", "§5 C10"),
  "C11": ("stateless deviation-bounded exhaustive exploration of real Apps with a wire model of mutate messages and acknowledgements; per-tick wire-scan oracle, quiescence check",
-         "For every mutation history and every hold / drop / reorder pattern of mutate messages and acks within the bound (plus junk ack indices and ack timeouts), a value is in a tick's traffic iff it was edited after the newest acknowledged message containing the entity; at rest the server is silent and resumes.", "§5 C11"),
+         "For every mutation history and every hold / drop / reorder pattern of mutate messages and acks within the bound (plus junk ack indices, ack timeouts shorter and longer than the bounded delay, a paused virtual clock), a value is in a tick's traffic iff it was edited after the newest acknowledged message containing the entity; at rest the server is silent and resumes.", "§5 C11"),
  "C12": ("explicit-state BFS with complete state keys over the real ConfirmHistory / ServerMutateTicks / RepliconTick against a set model, plus split-delivery exploration of real Apps with tracking",
          "All confirmation sequences within the bound (distances around the 64-tick window, bases at the wrap point and sign boundary) with all queries per state; end to end every ordered subset of a tick's mutate messages: the notification fires exactly once, only when complete.", "§5 C12"),
  "C14": ("exhaustive enumeration of registration sequences: hash per real App, all-pairs comparison, cross-process comparison, real handshakes for all single-edit pairs",
